@@ -244,6 +244,21 @@ func checkCase() {
 		sum[i] = f[i] + off[i]
 	}
 	ref, refok := refNormalize(sum)
+	// NormalizeDate computes ms*1000000 nanoseconds in int64
+	overflow := sum[6] > 9223372036854 || sum[6] < -9223372036854
+	if overflow {
+		t.Count("plus:ms-beyond-int64-ns")
+		if !ok && refok || ok && (!refok || fieldsOf(e) != ref) {
+			t.Fail("plus-ms-overflow", fmt.Sprintf("%v.Plus(%v): implementation %v (ok=%v), calendar reference %v (valid %v)",
+				f, off, fieldsOf(e), ok, ref, refok))
+			if ok {
+				t.Q(fmt.Sprintf("plus %v %v", f, off), fieldsOf(e).String())
+			} else {
+				t.Q(fmt.Sprintf("plus %v %v", f, off), "!bad")
+			}
+			return
+		}
+	}
 	if !ok {
 		t.Count("plus:out-of-range")
 		t.Q(fmt.Sprintf("plus %v %v", f, off), "!bad")
@@ -315,7 +330,7 @@ func checkCase() {
 	}
 	// a second independent date: differences and order
 	g := genDate()
-	if r.Intn(3) == 0 { // same day, other time
+	if r.Intn(3) == 0 && f[0] != 3000 { // same day, other time
 		g[0], g[1], g[2] = f[0], f[1], f[2]
 	}
 	d2 := mk(g)
